@@ -230,7 +230,8 @@ def check_m2c00(rep, prog):
                         leaves(t.a, cs_ + (t.c,)), leaves(t.b, cs_ + (not_(t.c),))
                     else:
                         alts.append((t, and_(*cs_)))
-                leaves(path)
+                only_v = and_(compare("eq", ver, Const(v)), *[compare("ne", ver, Const(o)) for o in (1, 2) if o != v])
+                leaves(pelx.specialise(path, only_v))
                 hit = [t for t, c in alts if not unsat(and_(c, compare("eq", ver, Const(v)), *[compare("ne", ver, Const(o)) for o in (1, 2) if o != v]))[0]
                        and not isinstance(t, Undef)]
                 names = {x.v for t in hit for x in walk(t) if is_const(x, str) and not x.v.startswith("/")}
